@@ -277,24 +277,20 @@ theorem allReal_components (g : G) (h : AllReal g) (cs : List G) (hc : component
         have : c = subgraph g w.1 w.2 := by simpa using hcm
         subst this; exact allReal_subgraph g h _ _
 
+theorem allReal_stripLoop (g : G) (h : AllReal g) (e : Nat) : AllReal (stripLoop g e) := by
+  unfold stripLoop
+  have h1 := allReal_modNode g h (g.edge e).src (fun n => { n with outs := G.removeE n.outs e }) (fun _ => rfl)
+  have h2 := allReal_modNode _ h1 (g.edge e).src (fun n => { n with ins := G.removeE n.ins e }) (fun _ => rfl)
+  exact h2
+
 theorem allReal_ignoreSelfLoops (g : G) (h : AllReal g) : AllReal (ignoreSelfLoops g).1 := by
   unfold ignoreSelfLoops
   simp only
-  have : ∀ (l : List Nat) (g0 : G), AllReal g0 → AllReal (l.foldl (fun g e =>
-      let v := (g.edge e).src
-      let g := g.modNode v fun n => { n with outs := G.removeE n.outs e }
-      let g := g.modNode v fun n => { n with ins := G.removeE n.ins e }
-      { g with elist := G.removeE g.elist e }) g0) := by
+  have : ∀ (l : List Nat) (g0 : G), AllReal g0 → AllReal (l.foldl stripLoop g0) := by
     intro l
     induction l with
     | nil => intro g0 h0; exact h0
-    | cons e l ih =>
-      intro g0 h0
-      simp only [List.foldl_cons]
-      apply ih
-      have h1 := allReal_modNode g0 h0 (g0.edge e).src (fun n => { n with outs := G.removeE n.outs e }) (fun _ => rfl)
-      have h2 := allReal_modNode _ h1 (g0.edge e).src (fun n => { n with ins := G.removeE n.ins e }) (fun _ => rfl)
-      exact h2
+    | cons e l ih => intro g0 h0; exact ih _ (allReal_stripLoop g0 h0 e)
   exact this _ g h
 
 /-- the hypothesis `hreal` of `C02_layoutModel_nodes` always holds for what `preProcess` returns -/
